@@ -305,12 +305,20 @@ func runCheck(prop, tier, only string, jobs, seed int, noReplay bool, dump strin
 						nt.cases[k] = x
 					}
 					nt.cases[r.needCase.Name] = v
+					if cf := os.Getenv("VERIF_CASE"); cf != "" && strings.HasPrefix(cf, r.needCase.Name+"=") && cf != fmt.Sprintf("%s=%d", r.needCase.Name, v) {
+						continue // debugging aid: VERIF_CASE=name=value runs only that case
+					}
 					queue = append(queue, nt)
 				}
 			} else {
 				results = append(results, r)
 				if verbose {
 					fmt.Fprintf(os.Stderr, "  %s[%s]: paths=%d obligations=%d %.1fs %v\n", t.harness, t.caseStr(), r.ex.Paths, len(r.ex.Obls), r.secs, r.ex.Unsupp)
+					if os.Getenv("VERIF_DEBUG") != "" {
+						for _, ob := range r.ex.Obls {
+							fmt.Fprintf(os.Stderr, "      %-8s %-8s %.1fs %s\n", ob.Kind, ob.Status, ob.Secs, ob.Msg)
+						}
+					}
 				}
 			}
 			cond.Broadcast()
